@@ -271,15 +271,20 @@ def _scenario(name, case, scratch):
         return fn
     if name == 'S8':
         # two independent simulations on the two halves of the world: everything must stay on the sub-communicator
+        os.makedirs(os.path.join(scratch, 'simulation_0'), exist_ok=True)
         def fn(r):
             world = MPI.COMM_WORLD
             size = world.Get_size()
             color = 0 if r < (size + 1) // 2 else 1
             sub = world.Split(color, r)
-            folder = 'sim%d' % color
             g, c, t = setupCylindricalGrid(layout='v_parallel', npts=list(NPTS), comm=sub)
             fill(g)
-            setupSave(c, folder, sub)
+            if color == 0:
+                folder = setupSave(c, 'sim0', sub)
+            else:
+                # no folder name given and simulation_0 exists already: the root numbers a new folder and tells the others
+                folder = setupSave(c, None, sub)
+                assert folder == 'simulation_1', 'setupSave returned %r on rank %d' % (folder, r)
             sub.Barrier()
             g2, c2, t2 = setupFromFile(folder, comm=sub, layout='poloidal')          # folder without checkpoint: fresh initialisation
             out = [t2, g2.currentLayout]
